@@ -36,6 +36,11 @@ if TYPE_CHECKING:
         from typing_extensions import Self
 
 
+def _both(left: Term, right: Term) -> Term:
+    # a condition need not be a Criterion (CASE, a parameter, a literal ...) and a plain Term has no "&" of its own
+    return Criterion.__and__(left, right)  # type:ignore[arg-type]
+
+
 class Selectable(Node):
     def __init__(self, alias: str) -> None:
         self.alias = alias
@@ -1240,7 +1245,7 @@ class QueryBuilder(Selectable, Term):  # type:ignore[misc]
             self._foreign_table = True
 
         if self._prewheres:
-            self._prewheres &= criterion
+            self._prewheres = _both(self._prewheres, criterion)
         else:
             self._prewheres = criterion
 
@@ -1252,7 +1257,7 @@ class QueryBuilder(Selectable, Term):  # type:ignore[misc]
             if not self._validate_table(criterion):
                 self._foreign_table = True
             if self._wheres:
-                self._wheres &= criterion  # type:ignore[operator]
+                self._wheres = _both(self._wheres, criterion)
             else:
                 self._wheres = criterion
         else:
@@ -1260,12 +1265,12 @@ class QueryBuilder(Selectable, Term):  # type:ignore[misc]
                 raise QueryException("DO NOTHING doest not support WHERE")
             if self._on_conflict_fields and self._on_conflict_do_updates:
                 if self._on_conflict_do_update_wheres:
-                    self._on_conflict_do_update_wheres &= criterion  # type:ignore[operator]
+                    self._on_conflict_do_update_wheres = _both(self._on_conflict_do_update_wheres, criterion)
                 else:
                     self._on_conflict_do_update_wheres = criterion
             elif self._on_conflict_fields:
                 if self._on_conflict_wheres:
-                    self._on_conflict_wheres &= criterion  # type:ignore[operator]
+                    self._on_conflict_wheres = _both(self._on_conflict_wheres, criterion)
                 else:
                     self._on_conflict_wheres = criterion
             else:
@@ -1276,7 +1281,7 @@ class QueryBuilder(Selectable, Term):  # type:ignore[misc]
         if isinstance(criterion, EmptyCriterion):
             return  # type:ignore[return-value]
         if self._havings:
-            self._havings &= criterion
+            self._havings = _both(self._havings, criterion)
         else:
             self._havings = criterion
 
